@@ -22,7 +22,7 @@ RULE = ('Each run = one seeded record: 1 probe model or a Coupler of 2-3 probe m
 ASSUMPTIONS = ['Resolution precondition: minDtFrac*dt_total >= 8 ulp(t0+dt_total) (below that no floating-point clock can advance).',
                'The probe model is a well-formed GenericModel apart from its dt proposals (it returns derivatives in the structure it supplied).',
                'Step-size bounds are compared with a tolerance of 4 ulp of the end time (time stamps are sums of rounded floats).']
-COMPONENTS = {'real': ['kawin.solver.Solver.DESolver', 'kawin.solver.Iterators', 'kawin.GenericModel.GenericModel.solve/flattenX/unflattenX',
+COMPONENTS = {'real': ['real PrecipitateModel (analytic backend) + SinglePhaseModel (synthetic diffusivity) coupled through Coupler in 4% of the runs', 'kawin.solver.Solver.DESolver', 'kawin.solver.Iterators', 'kawin.GenericModel.GenericModel.solve/flattenX/unflattenX',
                        'kawin.GenericModel.Coupler'], 'stub': ['plug-in model (scripted probe model by design: it is the adversary)']}
 
 
@@ -52,6 +52,14 @@ def gen_template(rng, custom):
 
 
 def generate(rng, tier, index):
+    if index % 25 == 24:
+        # real models with differently shaped states coupled together: precipitation (list of per-phase 1-D arrays whose lengths change
+        # when a size grid is extended / re-meshed) + diffusion (one 2-D array with its own flatten)
+        from ksim import precipworld as PW, diffworld as DW
+        pcfg = PW.gen_stub_config(rng, nphase=rng.choice([1, 2, 3]))
+        dcfg = DW.gen_config(rng, model='single', real_ok=False)
+        calls = [{'T': 10 ** rng.uniform(-2.5, -1.3), 'min': rng.choice([1e-3, 5e-3, 2e-2]), 'max': rng.choice([1.0, 0.1]), 'it': rng.choice(['euler', 'rk4'])} for _ in range(rng.choice([1, 2, 3]))]
+        return {'kind': 'real_pair', 'pcfg': pcfg, 'dcfg': dcfg, 'calls': calls, 'order': rng.choice(['pd', 'dp'])}
     kind = 'single' if rng.random() < 0.55 else 'coupler'
     nmod = 1 if kind == 'single' else rng.randint(1, 3)
     ncalls = rng.choice([1, 1, 2, 3, 4])
@@ -100,7 +108,74 @@ def generate(rng, tier, index):
     return {'kind': kind, 't0': t0, 'models': models, 'calls': calls}
 
 
+def execute_real_pair(rec):
+    from ksim import precipworld as PW, diffworld as DW
+    F = core.Failures()
+    D = core.Digest()
+    pm, _ = PW.build_model(rec['pcfg'], keep_log=False)
+    dm, _ = DW.build(rec['dcfg'])
+    models = [pm, dm] if rec['order'] == 'pd' else [dm, pm]
+    top = sw.Coupler(models)
+    cnt = {'steps': 0, 'calls': 0, 'sim_time': 0.0, 'grid_changes': 0, 'real_pair_runs': 1}
+    problems = []
+
+    def tap_model(m, name):
+        og, op_ = m.getdXdt, m.postProcess
+
+        def g(t, x, _og=og):
+            ref = m.getCurrentX()[1]
+            if sw.structure_of(x) != sw.structure_of(ref):
+                problems.append((name + '.getdXdt', f'state structure {sw.structure_of(x)} differs from the model\'s own {sw.structure_of(ref)}'))
+            return _og(t, x)
+
+        def p(time, x, _op=op_):
+            ref = m.getCurrentX()[1]
+            if sw.structure_of(x) != sw.structure_of(ref):
+                problems.append((name + '.postProcess', f'state structure {sw.structure_of(x)} differs from the model\'s own {sw.structure_of(ref)}'))
+            return _op(time, x)
+        m.getdXdt, m.postProcess = g, p
+    tap_model(pm, 'precipitation')
+    tap_model(dm, 'diffusion')
+    bins0 = [b.bins for b in pm.PBM]
+    for ci, call in enumerate(rec['calls']):
+        t_start = float(top.time[-1])
+        tf = t_start + call['T']
+        n0 = len(top.time)
+        try:
+            top.solve(call['T'], solverType=sw.ITER[call['it']], minDtFrac=call['min'], maxDtFrac=call['max'])
+        except Exception as e:  # noqa
+            F.add('C05.exception', f'coupled real models, call {ci}: solve raised {type(e).__name__}: {e}', call=ci, exc=type(e).__name__)
+            break
+        times = [float(t) for t in top.time[n0:]]
+        cnt['calls'] += 1
+        cnt['steps'] += len(times)
+        D.add(ci, *times)
+        if not times or times[-1] != tf:
+            F.add('C05.end_time', f'coupled real models, call {ci}: ended at {times[-1] if times else None!r}, requested {tf!r}', call=ci)
+        if any(b <= a for a, b in zip([t_start] + times[:-1], times)):
+            F.add('C05.monotone', f'coupled real models, call {ci}: accepted times not strictly increasing', call=ci)
+        span = tf - t_start
+        seq = [t_start] + times
+        tol = 4 * sw.ulp(tf)
+        for k in range(1, len(seq)):
+            dt = seq[k] - seq[k - 1]
+            if dt > call['max'] * span + tol or (dt < call['min'] * span - tol and k != len(seq) - 1):
+                F.add('C05.step_bounds', f'coupled real models, call {ci} step {k}: dt={dt!r} outside [{call["min"] * span!r}, {call["max"] * span!r}]', call=ci, side='pair')
+                break
+        if float(pm.pData.time[pm.pData.n]) != times[-1] or float(dm.t) != times[-1]:
+            F.add('C05.coupler_clock', f'coupled real models, call {ci}: sub-model clocks {float(pm.pData.time[pm.pData.n])!r} / {float(dm.t)!r} differ from the coupler clock {times[-1]!r}', call=ci)
+        cnt['sim_time'] += times[-1] - t_start
+    if [b.bins for b in pm.PBM] != bins0:
+        cnt['grid_changes'] = 1
+    for where, what in problems[:3]:
+        F.add('C05.structure', f'coupled real models at {where}: {what}', where=where.split('.')[0])
+    sig = 'real_pair:' + rec['order'] + ':' + str(len(rec['pcfg']['phases'])) + (':grid' if cnt['grid_changes'] else '')
+    return core.result(F, sig=sig, nontrivial=cnt['steps'] >= 4, counters=cnt, digest=D.hex())
+
+
 def execute(rec):
+    if rec['kind'] == 'real_pair':
+        return execute_real_pair(rec)
     F = core.Failures()
     D = core.Digest()
     models = [sw.ProbeModel(ms, j) for j, ms in enumerate(rec['models'])]
@@ -237,6 +312,11 @@ def execute(rec):
 
 
 def shrink_candidates(rec):
+    if rec['kind'] == 'real_pair':
+        for c in core.ddmin_candidates(rec['calls']):
+            if c:
+                r = copy.deepcopy(rec); r['calls'] = c; yield r
+        return
     # fewer calls
     for c in core.ddmin_candidates(rec['calls']):
         if c:
